@@ -260,9 +260,7 @@ def observe_element(out):
         if not isinstance(lst, A.VecV) or lst.base is None:
             return ("?", A.show(v))
         res.append((lst.base.term, tuple(_item(x) for x in lst.items)))
-    rec = sum(1 for e in out["effects"] if e[0] == "call" and e[1].endswith("collect_removable_ranges"))
-    consulted = sum(1 for e in out["effects"] if e[0] == "call" and e[1].endswith("is_removal"))
-    return (res[0], res[1], rec, consulted)
+    return (res[0], res[1])
 
 
 def _item(x):
@@ -275,7 +273,7 @@ def _item(x):
 def spec_element(row, create_term):
     """Expected observation for a row of the spec table (DESIGN appendix C)."""
     if not row["elem"]:
-        return (("READY_ACC", ()), ("PENDING_ACC", ()), 0, 0)
+        return (("READY_ACC", ()), ("PENDING_ACC", ()))
     live = (not row["skip"]) and row["registered"]
     usable = row["built"] and not row["empty"]
     ready = live and row["verdict"] and usable
@@ -292,7 +290,7 @@ def spec_element(row, create_term):
     else:
         r_items = ("..spread(%s)" % r_children,)
         p_items = ("..spread(%s)" % p_children,)
-    return (("READY_ACC", r_items), ("PENDING_ACC", p_items), 1, 1 if live else 0)
+    return (("READY_ACC", r_items), ("PENDING_ACC", p_items))
 
 
 def element_rows(ctx, res, rule, fn_filter, what):
@@ -323,9 +321,7 @@ def element_rows(ctx, res, rule, fn_filter, what):
         row = dict(zip(ATOMS, combo))
         if not fn_filter(row):
             continue
-        # canonical rows only: atoms that cannot matter are fixed to False to avoid duplicates
-        if not _canonical(row):
-            continue
+        # all 2^7 rows are checked: atoms that "cannot matter" are exactly what a faulty edit makes matter
         rows += 1
         hits = [o for dec, o in paths if all(row[a] == v for a, v in dec.items())]
         rowtxt = ",".join("%s=%d" % (a, row[a]) for a in ATOMS)
@@ -339,10 +335,9 @@ def element_rows(ctx, res, rule, fn_filter, what):
             bad += 1
             got = sorted(obs, key=repr)[0]
             res.add(Finding(rule, fn, "row:" + rowtxt,
-                            "%s: for an element with [%s] the code produces ready=%s pending=%s recursion=%s consulted=%s; "
-                            "the property requires ready=%s pending=%s recursion=%s consulted=%s"
-                            % (what, rowtxt, got[0], got[1], got[2] if len(got) > 2 else "?", got[3] if len(got) > 3 else "?",
-                               exp[0], exp[1], exp[2], exp[3]), loc=loc,
+                            "%s: for an element with [%s] the code appends ready=%s pending=%s; "
+                            "the property requires ready=%s pending=%s"
+                            % (what, rowtxt, got[0], got[1], exp[0], exp[1]), loc=loc,
                             detail={"row": row, "code": repr(got), "spec": repr(exp)}))
         else:
             res.holds(rule, fn, "row:" + rowtxt)
